@@ -15,13 +15,7 @@ func fnWatch(ctx *cmdContext, args map[string]any) (output respValue, err error)
 
 	ids := ctx.dsc.getIds(keyStrs...)
 	for idx, id := range ids {
-		wk := watchKey{ds: ctx.dsc.ds, key: keyStrs[idx]}
-		if _, alreadyWatched := ctx.cs.watches[wk]; alreadyWatched {
-			// keep the version seen by the first WATCH: watching a key again must not
-			// forget a modification that happened in between
-			continue
-		}
-		ctx.cs.watches[wk] = id
+		ctx.cs.addWatch(watchKey{ds: ctx.dsc.ds, key: keyStrs[idx]}, id)
 	}
 
 	output.data = rstrOK
@@ -30,7 +24,7 @@ func fnWatch(ctx *cmdContext, args map[string]any) (output respValue, err error)
 
 func fnUnwatch(ctx *cmdContext, args map[string]any) (output respValue, err error) {
 	// clear out watch map
-	ctx.cs.watches = map[watchKey]uint64{}
+	ctx.cs.resetWatches()
 	output.data = rstrOK
 	return
 }
@@ -42,7 +36,7 @@ func fnDiscard(ctx *cmdContext, args map[string]any) (output respValue, err erro
 	}
 
 	// clear out watch map and discard multi command queue
-	ctx.cs.watches = map[watchKey]uint64{}
+	ctx.cs.resetWatches()
 	ctx.cs.cmdQueue = nil
 	ctx.cs.cmdQueueError = false
 	output.data = rstrOK
@@ -50,7 +44,7 @@ func fnDiscard(ctx *cmdContext, args map[string]any) (output respValue, err erro
 }
 
 func isAbortedExecUnlocked(cs *clientState) bool {
-	for watch, id := range cs.watches {
+	for watch, id := range cs.copyWatches() {
 		// caller holds exclusive lock, so go directly to the data store for this check
 		if watch.ds.hasChangedUnlocked(watch.key, id) {
 			return true
@@ -67,7 +61,7 @@ func fnExec(ctx *cmdContext, args map[string]any) (output respValue, err error) 
 
 	if ctx.cs.cmdQueueError {
 		// a command was rejected while queueing: nothing is executed
-		ctx.cs.watches = map[watchKey]uint64{}
+		ctx.cs.resetWatches()
 		ctx.cs.cmdQueue = nil
 		ctx.cs.cmdQueueError = false
 		output.data = respErrorString("EXECABORT Transaction discarded because of previous errors.")
@@ -85,7 +79,7 @@ func fnExec(ctx *cmdContext, args map[string]any) (output respValue, err error) 
 	// check the watches; if anything has changed, return null
 	if isAbortedExecUnlocked(ctx.cs) {
 		// the transaction is over: back to normal mode with no queue and no watched keys
-		ctx.cs.watches = map[watchKey]uint64{}
+		ctx.cs.resetWatches()
 		ctx.cs.cmdQueue = nil
 		return
 	}
@@ -107,7 +101,7 @@ func fnExec(ctx *cmdContext, args map[string]any) (output respValue, err error) 
 	}
 
 	// reset multi state and return the results
-	ctx.cs.watches = map[watchKey]uint64{}
+	ctx.cs.resetWatches()
 	ctx.cs.cmdQueue = nil
 	output.data = nativeArrayToResp(results)
 	return
